@@ -102,6 +102,24 @@ def prepare():
     def bad(x: Float[N, "a b"], y: Float[N, "a"]):
         return 0
 
+    import jax
+
+    class ReNode:
+        """a custom PyTree node whose flatten function itself makes a decorated call (a nested scope that is entered
+        and left WHILE the enclosing PyTree check is flattening)"""
+
+        def __init__(self, a):
+            self.a = a
+
+    def _fl(n):
+        mm(real.np_array((2, 3)), real.np_array((3, 4)))
+        return (n.a,), None
+
+    try:
+        jax.tree_util.register_pytree_node(ReNode, _fl, lambda aux, ch: ReNode(ch[0]))
+    except ValueError:
+        pass
+    _ANN.update(ReNode=ReNode, re_tree=PyTree[Float[N, "a"]], sym=Shaped[N, "a b a*2+b"], sym_tree=PyTree[Shaped[N, "a a+1"]])
     _ANN.update(mm=mm, mm_b=mm_b, bad=bad, CTX=jaxtyped("context"))
     # warm caches (equinox / wadler_lindig imports happen in error paths)
     try:
@@ -180,6 +198,32 @@ def op_nested(k=0):
         bad = [[A(2 + k), A(3 + k)]]
         q = [[A(2), A(2)], A(3 + k)]
         return (real.check(good, _ANN["nested_tree"]), real.check(bad, _ANN["nested_tree"]), real.check(q, _ANN["nested_q"]), real.check([A(2, dt="int32")], _ANN["nested_tree"])), real.raw_transcript()
+
+    return ctx(body)
+
+
+def op_symbolic(k=0):
+    """symbolic axes are computed from THIS scope's bindings"""
+    def body():
+        a, b = 2 + k, 3 + (k % 2)
+        r = (
+            real.check(A(a, b, 2 * a + b), _ANN["sym"]),
+            real.check(A(a, b, 2 * a + b + 1), _ANN["sym"]),
+            real.check([A(a, a + 1), A(a, a + 1)], _ANN["sym_tree"]),
+            real.check([A(a, a + 1), A(a, a + 2)], _ANN["sym_tree"]),
+        )
+        return r, real.raw_transcript()
+
+    return ctx(body)
+
+
+def op_reentrant(k=0):
+    def body():
+        R = _ANN["ReNode"]
+        good = [R(A(2 + k)), A(2 + k), (A(2 + k),)]
+        bad_dtype = [R(A(2 + k)), A(2 + k, dt="int32")]
+        bad_size = [R(A(2 + k)), (A(2 + k), A(3 + k))]
+        return (real.check(good, _ANN["re_tree"]), real.check(bad_dtype, _ANN["re_tree"]), real.check(bad_size, _ANN["re_tree"]), real.check(A(2 + k, dt="int32"), _ANN["f_a"])), real.raw_transcript()
 
     return ctx(body)
 
@@ -268,8 +312,8 @@ def pr_struct(k=0):
     return ctx(lambda: (real.check((1, 2), _ANN["int_tree"]), real.check((1, (2, 3)), _ANN["int_tree"]), real.raw_transcript()))
 
 
-OPS = {"qtree": op_qtree, "rollback": op_rollback, "call": op_call, "block": op_block, "tuptree": op_tuptree, "errmsg": op_error_message, "nested": op_nested, "fresh": op_fresh, "toplevel_multi": op_toplevel_multi, "shared_ctx": op_shared_ctx}
-PROBES = {"shared_ctx": op_shared_ctx, "fresh": op_fresh, "toplevel_multi": op_toplevel_multi, "wrong_dtype": pr_wrong_dtype, "question_outside": pr_question_outside, "same_name": pr_same_name, "toplevel": pr_toplevel, "struct": pr_struct, "call": op_call, "qtree": op_qtree, "nested": op_nested}
+OPS = {"qtree": op_qtree, "rollback": op_rollback, "call": op_call, "block": op_block, "tuptree": op_tuptree, "errmsg": op_error_message, "nested": op_nested, "fresh": op_fresh, "toplevel_multi": op_toplevel_multi, "shared_ctx": op_shared_ctx, "reentrant": op_reentrant, "symbolic": op_symbolic}
+PROBES = {"reentrant": op_reentrant, "symbolic": op_symbolic, "shared_ctx": op_shared_ctx, "fresh": op_fresh, "toplevel_multi": op_toplevel_multi, "wrong_dtype": pr_wrong_dtype, "question_outside": pr_question_outside, "same_name": pr_same_name, "toplevel": pr_toplevel, "struct": pr_struct, "call": op_call, "qtree": op_qtree, "nested": op_nested}
 ALL = dict(OPS, **{"pr_" + k: v for k, v in PROBES.items()})
 
 
@@ -303,6 +347,9 @@ def run_single_preemptions(rec, shard, tier):
         # quick tier: at most ~120 preemption points per (operation, probe) pair, evenly spread; the
         # offset rotates with the pair so that over the catalogue every residue class is visited
         step = max(1, K // 500) if tier == "thorough" else max(1, K // 120)
+        if a == b and a in ("symbolic", "reentrant"):
+            step = 1  # narrow windows (a few lines between filling in a scope's values and using them): every yield point
+            rec.count("single_preemption.dense_pairs")
         for k in range(1 + (idx % step), K + 1, step):
             seen = {}
 
